@@ -48,6 +48,29 @@ Theorem C15_addap :
 Proof. exact PatchProofs.addap_refines. Qed.
 Print Assumptions C15_addap.
 
+(* the same two clauses, and RFC 6902 add itself, for a wider domain: add / addne / addap never
+   resolve their last reference token, so when the parent is not an array it may look like anything
+   (a non-standard key token `#name` / `~name` included) - only the tokens before it must be
+   standard.  (For array parents the widening is false: Python's list.insert accepts negative
+   indices; PatchProofs.add_negative_index_refuted.) *)
+Theorem C15_add_wide :
+  forall (p : pointer) (v d : json),
+    add_domain p d -> refines (Patch.apply [OpAdd p v] d) (rfc_op (RAdd (tokens p) v) d).
+Proof. exact PatchProofs.add_refines_wide. Qed.
+Print Assumptions C15_add_wide.
+
+Theorem C15_addne_wide :
+  forall (p : pointer) (v d : json),
+    add_domain p d -> refines (Patch.apply [OpAddNe p v] d) (doc_addne (tokens p) v d).
+Proof. exact PatchProofs.addne_refines_wide. Qed.
+Print Assumptions C15_addne_wide.
+
+Theorem C15_addap_wide :
+  forall (p : pointer) (v d : json),
+    add_domain p d -> refines (Patch.apply [OpAddAp p v] d) (doc_addap (tokens p) v d).
+Proof. exact PatchProofs.addap_refines_wide. Qed.
+Print Assumptions C15_addap_wide.
+
 Example C15_example :
   let ods := [mkOpDoc NAddAp [47%N; 97%N; 47%N; 57%N] [] JNull; mkOpDoc NAddNe [47%N; 97%N] [] JNull] in
   exists pops, build true ods = Ok pops /\ map od_op (asdicts pops) = [NAddAp; NAddNe] /\
